@@ -354,8 +354,73 @@ func runC05(c *Ctx) {
 		})
 	}
 
+	// SetTTL: every non-OPT header gets exactly the parameter, unconditionally
+	if stf := c.fn(relDnsutils, "", "SetTTL"); stf != nil {
+		n, good := 0, true
+		why := ""
+		eachInstr(stf, func(in ssa.Instruction) {
+			st, ok := in.(*ssa.Store)
+			if !ok {
+				return
+			}
+			if k, _ := fieldKey(st.Addr); k != "github.com/miekg/dns.RR_Header.Ttl" {
+				return
+			}
+			n++
+			if st.Val != ssa.Value(stf.Params[1]) {
+				good, why = false, "stores "+exprStr(st.Val)+" instead of the ttl parameter"
+			}
+			hdr := innermostLoopHeader(st.Block())
+			for _, g := range guardsOfInstr(st) {
+				if hdr == nil || !hdr.Dominates(g.If.Block()) {
+					continue
+				}
+				if cm, ok := g.asCmp(); ok {
+					if k, _ := loadedField(cm.X); k == "github.com/miekg/dns.RR_Header.Rrtype" {
+						continue // the OPT skip
+					}
+					if cm.Op == token.LSS {
+						continue // range-over-slice index test
+					}
+				}
+				if v, _ := g.asBool(); v != nil {
+					if ex, ok := v.(*ssa.Extract); ok {
+						if _, isNext := ex.Tuple.(*ssa.Next); isNext {
+							continue
+						}
+					}
+				}
+				good, why = false, "the store is conditional on "+guardText(g)
+			}
+		})
+		eachInstr(stf, func(in ssa.Instruction) {
+			st, ok := in.(*ssa.Store)
+			if !ok {
+				return
+			}
+			if k, _ := fieldKey(st.Addr); k != "github.com/miekg/dns.RR_Header.Ttl" {
+				return
+			}
+			optEdge := func(iff *ssa.If, truth bool) bool {
+				g := guard{Cond: iff.Cond, Truth: truth, If: iff}
+				if cm, ok := g.asCmp(); ok && cm.Op == token.EQL {
+					if k, _ := loadedField(cm.X); k == "github.com/miekg/dns.RR_Header.Rrtype" {
+						if n, ok := constInt(cm.Y); ok && n == 41 {
+							return true
+						}
+					}
+				}
+				return false
+			}
+			if sk, _ := iterationCanSkip(in, optEdge); sk {
+				good, why = false, "some non-OPT record is skipped"
+			}
+		})
+		c.check(good && n == 1, "set-ttl-exact", stf.Pos(), "SetTTL writes the parameter into every non-OPT record, unconditionally", "SetTTL does not set every record to exactly the given TTL ("+why+"): a stale answer is served with other TTLs than 5")
+	}
+
 	// ---------------------------------------------------------------- R4
-	c.rule("R4", "hit path: fresh only before expiry with delta = now - storedTime; stale only with lazy caching and TTL 5; else miss", 3)
+	c.rule("R4", "hit path: fresh only before expiry with delta = now - storedTime; stale only with lazy caching and TTL 5; else miss", 5)
 	{
 		lazyFlag, lazyTtl := get.Params[2], get.Params[3]
 		for _, r := range returnsOf(get) {
@@ -368,6 +433,15 @@ func runC05(c *Ctx) {
 			if stale {
 				key = "stale-hit"
 			}
+			// what is aged and returned is a copy of the stored message, never the stored message itself (else every
+			// hit subtracts the age again from what the next hit starts with)
+			isCopy := false
+			if cl, ok := rv[0].(*ssa.Call); ok && callName(cl) == "(*github.com/miekg/dns.Msg).Copy" {
+				if k, ok := loadedField(cl.Call.Args[0]); ok && k == IT+".resp" {
+					isCopy = true
+				}
+			}
+			c.check(isCopy, key+":copy", instrPos(r), "the answer handed out and aged is item.resp.Copy()", "the hit path ages and returns "+exprStr(rv[0])+", not a copy of the stored message: the TTL rewrite lands in the cache entry and every further hit is aged again")
 			var beforeGuard, lazyGuard bool
 			var nowVal ssa.Value
 			for _, g := range guardsOfInstr(r) {
@@ -443,6 +517,9 @@ func runC05(c *Ctx) {
 				if mc, ok := ci.Call.Args[2].(*ssa.MakeClosure); ok {
 					sfFn = mc.Fn.(*ssa.Function)
 				}
+				// one group for the whole plugin (a per-call group de-duplicates nothing)
+				k, _ := fieldKey(ci.Call.Args[0])
+				c.check(k == relCachePlugin+".Cache.lazyUpdateSF", "singleflight-group", instrPos(in), "the refresh is de-duplicated in the plugin's own singleflight group", "DoChan runs on "+exprStr(ci.Call.Args[0])+", not on the plugin's lazyUpdateSF field: concurrent stale hits are not de-duplicated")
 				// key = msgKey param
 				c.check(isParamValue(p, ci.Call.Args[1], dl.Params[1]), "singleflight-key", instrPos(in), "de-duplicated by the message key", "the refresh is not de-duplicated by the message key")
 			}
@@ -560,6 +637,7 @@ func runC05(c *Ctx) {
 	if gm := c.fn(relDnsutils, "", "GetMinimalTTL"); gm != nil {
 		// result: 0 without records, else a value that is only ever replaced by a smaller header TTL of a non-OPT record
 		minOK, optOK := false, false
+		extraGuard := ""
 		eachInstr(gm, func(in ssa.Instruction) {
 			phi, ok := in.(*ssa.Phi)
 			if !ok {
@@ -570,10 +648,30 @@ func runC05(c *Ctx) {
 				if !isTtl || k != "github.com/miekg/dns.RR_Header.Ttl" {
 					continue
 				}
+				lh := innermostLoopHeader(phi.Block().Preds[i])
 				for _, g := range guardsOf(phi.Block().Preds[i]) {
 					cm, ok := g.asCmp()
 					if !ok {
+						if lh != nil && lh.Dominates(g.If.Block()) {
+							if v, _ := g.asBool(); v != nil {
+								if ex, isEx := v.(*ssa.Extract); isEx {
+									if _, isNext := ex.Tuple.(*ssa.Next); isNext {
+										continue
+									}
+								}
+							}
+							extraGuard = guardText(g)
+						}
 						continue
+					}
+					if lh != nil && lh.Dominates(g.If.Block()) {
+						isMin := cm.X == e && cm.Op == token.LSS
+						k3, _ := loadedField(cm.X)
+						isOpt := k3 == "github.com/miekg/dns.RR_Header.Rrtype"
+						isIdx := cm.Op == token.LSS && !isMin
+						if !isMin && !isOpt && !isIdx {
+							extraGuard = guardText(g)
+						}
 					}
 					if cm.X == e && cm.Op == token.LSS {
 						if _, isPhi := cm.Y.(*ssa.Phi); isPhi {
@@ -595,9 +693,9 @@ func runC05(c *Ctx) {
 				touchesAll[fieldTail(k)] = true
 			}
 		})
-		c.check(minOK && optOK && touchesAll["Answer"] && touchesAll["Ns"] && touchesAll["Extra"], "minimal-ttl", gm.Pos(),
-			"minimum over answer, authority and additional records, OPT excluded",
-			fmt.Sprintf("GetMinimalTTL is not the minimum over all non-OPT records of all three sections (replace-if-smaller: %v, OPT skipped: %v, sections: %v)", minOK, optOK, touchesAll))
+		c.check(minOK && optOK && extraGuard == "" && touchesAll["Answer"] && touchesAll["Ns"] && touchesAll["Extra"], "minimal-ttl", gm.Pos(),
+			"minimum over answer, authority and additional records, OPT excluded, no record skipped",
+			fmt.Sprintf("GetMinimalTTL is not the minimum over all non-OPT records of all three sections (replace-if-smaller: %v, OPT skipped: %v, sections: %v, extra condition: %q): e.g. zero-TTL records are skipped and a zero-TTL reply is stored", minOK, optOK, touchesAll, extraGuard))
 	}
 
 	// ---------------------------------------------------------------- R6
@@ -608,6 +706,13 @@ func runC05(c *Ctx) {
 	c.rule("R7", "every loop that rewrites record TTLs skips the OPT pseudo-record", 4)
 	checkTTLLoopsSkipOPT(c)
 	_ = sort.Strings
+
+	// ---------------------------------------------------------------- R10
+	c.rule("R10", "entries loaded from a dump keep their age: stored time, message expiry and cache expiry are rebuilt from the dumped fields", 5)
+	if rd := c.fn(relCachePlugin, "Cache", "readDump"); rd != nil {
+		checkDumpReaderFields(c, rd)
+	}
+
 }
 
 // checkTTLLoopsSkipOPT (C05-R7, C15-R6): every store to RR_Header.Ttl is guarded by Rrtype != TypeOPT of the same header.
